@@ -463,3 +463,146 @@ def rule_opposite_predicate(ctx: Ctx, rule: str = "opposite-terms") -> None:
         return None
 
     _run(ctx, rule, key, "_are_polyhedral_terms_opposite: same variables in both directions and negated coefficients", thunk)
+
+
+# ------------------------------------------------------- independent reading of emitted text
+import re as _re
+from fractions import Fraction as _F
+
+_TOK = _re.compile(r"\s*(<=|>=|==|=|\||\+|-|\*|\(|\)|[0-9]*\.?[0-9]+(?:[eE][+-]?[0-9]+)?|[A-Za-z_][A-Za-z0-9_]*)")
+
+
+def read_relation(text: str):
+    """A tiny reader of 'linear (<=|=) number' with optional |...| around the left side - deliberately independent of
+    the library's grammar.  Returns (abs: bool, {var: coef}, op, constant) or None."""
+    toks = []
+    pos = 0
+    text = text.strip()
+    while pos < len(text):
+        m = _TOK.match(text, pos)
+        if not m:
+            return None
+        toks.append(m.group(1))
+        pos = m.end()
+    if not toks:
+        return None
+    ops = [i for i, t in enumerate(toks) if t in ("<=", "=", "==", ">=")]
+    if len(ops) != 1:
+        return None
+    lhs, op, rhs = toks[: ops[0]], toks[ops[0]], toks[ops[0] + 1:]
+    is_abs = False
+    if lhs and lhs[0] == "|" and lhs[-1] == "|":
+        is_abs = True
+        lhs = lhs[1:-1]
+
+    def linear(ts):
+        coefs: Dict[str, _F] = {}
+        const = _F(0)
+        i = 0
+        sign = 1
+        first = True
+        while i < len(ts):
+            t = ts[i]
+            if t in ("+", "-"):
+                sign = 1 if t == "+" else -1
+                if not first and i + 1 < len(ts) and ts[i + 1] in ("+", "-"):
+                    return None
+                i += 1
+                first = False
+                continue
+            first = False
+            num = None
+            if _re.match(r"^[0-9.]", t):
+                num = _F(t)
+                i += 1
+                if i < len(ts) and ts[i] == "*":
+                    i += 1
+                t = ts[i] if i < len(ts) else None
+            if t is not None and _re.match(r"^[A-Za-z_]", t):
+                coefs[t] = coefs.get(t, _F(0)) + sign * (num if num is not None else 1)
+                i += 1
+            elif num is not None:
+                const += sign * num
+            else:
+                return None
+            sign = 1
+        return coefs, const
+
+    L = linear(lhs)
+    R = linear(rhs)
+    if L is None or R is None or R[0]:
+        return None
+    return is_abs, L[0], op, R[1] - L[1]
+
+
+def rule_printer_reading(ctx: Ctx, rule: str = "printer-meaning") -> None:
+    """What the printer emits, read back by an independent mini-reader, denotes the printed term(s) with every number
+    at four significant digits: sign handling, +/-1 coefficients, first-term sign, folded forms."""
+    from .ratnf import Rat
+    from .rules_kernels import _run
+    from .termalg import DictV, Key, ListV, Rec, TermAlg, TupV, num
+
+    prog = ctx.prog
+    keys = {n: Key(n) for n in ("w", "x", "y", "z")}
+
+    def approx(ta, pos, kw):
+        a, b = pos[0], pos[1]
+        if isinstance(a, Rat) and isinstance(b, Rat):
+            ca, cb = a.as_const(), b.as_const()
+            if ca is not None and cb is not None:
+                return abs(ca - cb) <= _F(1, 10**8) + _F(1, 10**5) * abs(cb)
+            return (a - b).is_zero()
+        return False
+
+    stubs = {"serializer._are_numbers_approximatively_equal": approx}
+
+    def term(coefs: Dict[str, float], c: float) -> Rec:
+        return Rec("PolyhedralTerm", {"variables": DictV({keys[k]: num(_F(v).limit_denominator(10**6)) for k, v in coefs.items()}), "constant": num(_F(c).limit_denominator(10**6))})
+
+    def fmt4(v) -> _F:
+        return _F(format(float(v), ".4g"))
+
+    def same(read: Dict[str, _F], want: Dict[str, float], sgn: int = 1) -> bool:
+        ks = set(read) | set(want)
+        return all(read.get(k, _F(0)) == sgn * fmt4(want.get(k, 0)) for k in ks)
+
+    fi = prog.func("serializer.polyhedral_term_list_to_strings")
+    cases = [
+        ("single term, mixed signs and unit coefficients", [({"x": 2, "y": -3, "z": 1, "w": -1}, 4)], ("le", 0)),
+        ("leading negative non-unit coefficient", [({"x": -2.5, "y": 1}, -7)], ("le", 0)),
+        ("rounding to four significant digits", [({"x": 1.23456, "y": -0.000123456}, 1234.56)], ("le", 0)),
+        ("opposite pair, equal constants -> |LHS| <= c", [({"x": 2, "y": -1}, 3), ({"x": -2, "y": 1}, 3)], ("abs", 3)),
+        ("opposite pair, opposite constants -> LHS = c", [({"x": 2, "y": -1}, 3), ({"x": -2, "y": 1}, -3)], ("eq", 3)),
+        ("opposite pair, zero constants -> |LHS| = 0 (or LHS = 0)", [({"x": 2, "y": -1}, 0), ({"x": -2, "y": 1}, 0)], ("zero", 0)),
+        ("opposite pair, unrelated constants -> not folded", [({"x": 2, "y": -1}, 3), ({"x": -2, "y": 1}, 5)], ("le", 0)),
+    ]
+    for label, terms, (kind, cst) in cases:
+        def thunk(terms=terms, kind=kind, cst=cst):
+            ta = TermAlg(prog, stubs)
+            ts = ListV([term(c, k) for c, k in terms])
+            r = ta.call(fi, [ts], {})
+            if not isinstance(r, TupV) or len(r.items) != 2 or not (isinstance(r.items[0], tuple) and r.items[0][0] == "str"):
+                return "does not return (string, rest)"
+            text = r.items[0][1]
+            rest = r.items[1]
+            if "?" in text:
+                return "the emitted text could not be followed (%r)" % text
+            rd = read_relation(text)
+            if rd is None:
+                return "emitted %r, which the independent reader cannot read as 'linear <= / = number'" % text
+            is_abs, coefs, op, c = rd
+            head_c, head_k = terms[0]
+            n_rest = len(rest.items) if isinstance(rest, ListV) else -1
+            if kind == "le":
+                okc = (not is_abs) and op == "<=" and same(coefs, head_c) and c == fmt4(head_k) and n_rest == len(terms) - 1
+            elif kind == "abs":
+                okc = is_abs and op == "<=" and (same(coefs, head_c) or same(coefs, head_c, -1)) and c == fmt4(cst) and n_rest == 0
+            elif kind == "eq":
+                okc = (not is_abs) and op in ("=", "==") and ((same(coefs, head_c) and c == fmt4(cst)) or (same(coefs, head_c, -1) and c == -fmt4(cst))) and n_rest == 0
+            else:
+                okc = op in ("=", "==") and (same(coefs, head_c) or same(coefs, head_c, -1)) and c == 0 and n_rest == 0
+            if not okc:
+                return "terms %s were printed as %r (read back: abs=%s %s %s %s, %d term(s) left)" % (terms, text, is_abs, {k: str(v) for k, v in coefs.items()}, op, c, n_rest)
+            return None
+
+        _run(ctx, rule, fi.key, "printer meaning: " + label, thunk)
